@@ -26,7 +26,7 @@ variable {P : Type} [DecidableEq P]
 
 /-- Order independence: after ANY two sequences of earlier requests (successful or failed), a
     request returns the same value, which is also what the initial (fresh) state returns. -/
-theorem C02_order_independent (sys : Sys P) (rk : Nat → Nat) (hr : VarRanked sys rk) (hmsl : 1 ≤ sys.msl)
+theorem C02_order_independent (sys : Sys P) (hk : SlotCoherent sys) (rk : Nat → Nat) (hr : VarRanked sys rk) (hmsl : 1 ≤ sys.msl)
     (n : Nat) (krs₁ krs₂ : List (Node P × Res))
     (h₁ : ∀ kr ∈ krs₁, den sys n kr.1.1 kr.1.2 = some kr.2)
     (h₂ : ∀ kr ∈ krs₂, den sys n kr.1.1 kr.1.2 = some kr.2)
@@ -38,11 +38,11 @@ theorem C02_order_independent (sys : Sys P) (rk : Nat → Nat) (hr : VarRanked s
       request sys n s₂ k = some (r, false, s₂') ∧
       request sys n St.init k = some (r, false, s₀') := by
   obtain ⟨hc0, hs0, hi0⟩ := C01_init_consistent sys
-  obtain ⟨s₁, e1, c1, st1, i1⟩ := C01_requests_eq_den sys rk hr hmsl n krs₁ h₁ St.init hc0 hs0 hi0
-  obtain ⟨s₂, e2, c2, st2, i2⟩ := C01_requests_eq_den sys rk hr hmsl n krs₂ h₂ St.init hc0 hs0 hi0
-  obtain ⟨s₁', f1, _⟩ := C01_calculate_eq_den sys rk hr hmsl n s₁ c1 st1 i1 k.1 k.2 r hd
-  obtain ⟨s₂', f2, _⟩ := C01_calculate_eq_den sys rk hr hmsl n s₂ c2 st2 i2 k.1 k.2 r hd
-  obtain ⟨s₀', f0, _⟩ := C01_calculate_eq_den sys rk hr hmsl n St.init hc0 hs0 hi0 k.1 k.2 r hd
+  obtain ⟨s₁, e1, c1, st1, i1⟩ := C01_requests_eq_den sys hk rk hr hmsl n krs₁ h₁ St.init hc0 hs0 hi0
+  obtain ⟨s₂, e2, c2, st2, i2⟩ := C01_requests_eq_den sys hk rk hr hmsl n krs₂ h₂ St.init hc0 hs0 hi0
+  obtain ⟨s₁', f1, _⟩ := C01_calculate_eq_den sys hk rk hr hmsl n s₁ c1 st1 i1 k.1 k.2 r hd
+  obtain ⟨s₂', f2, _⟩ := C01_calculate_eq_den sys hk rk hr hmsl n s₂ c2 st2 i2 k.1 k.2 r hd
+  obtain ⟨s₀', f0, _⟩ := C01_calculate_eq_den sys hk rk hr hmsl n St.init hc0 hs0 hi0 k.1 k.2 r hd
   exact ⟨s₁, s₂, s₁', s₂', s₀', e1, e2, f1, f2, f0⟩
 
 /-- After every top-level request (all systems, success or failure): the evaluation stack is
@@ -52,7 +52,7 @@ theorem C02_stack_and_purge (sys : Sys P) (n : Nat) (s : St P) (hs : s.stack = [
     (r : Res) (g : Bool) (s' : St P) (h : request sys n s k = some (r, g, s')) :
     s'.stack = [] ∧ s'.inval = [] ∧
     ∃ s₁, run sys n s k.1 k.2 = some (r, g, s₁) ∧
-      ∀ j, lookup s'.cache j = if j ∈ s₁.inval then none else lookup s₁.cache j := by
+      ∀ j, lookup s'.cache j = if j ∈ s₁.inval.map sys.slot then none else lookup s₁.cache j := by
   unfold request at h
   cases hrun : run sys n s k.1 k.2 with
   | none => rw [hrun] at h; cases h
@@ -64,31 +64,31 @@ theorem C02_stack_and_purge (sys : Sys P) (n : Nat) (s : St P) (hs : s.stack = [
     have hst := run_stack sys n s k.1 k.2 r1 g1 s1 hrun
     rw [hs] at hst
     rw [if_pos hst]
-    refine ⟨by rw [(purge_spec s1 k).2.1, hst], (purge_spec s1 k).1, s1, rfl, fun j => (purge_spec s1 j).2.2⟩
+    refine ⟨by rw [(purge_spec sys s1 k).2.1, hst], (purge_spec sys s1 k).1, s1, rfl, fun j => (purge_spec sys s1 j).2.2⟩
 
 /-- Marked entries are purged: nothing that was in `invalidated_caches` is readable afterwards. -/
 theorem C02_marked_purged (sys : Sys P) (n : Nat) (s : St P) (hs : s.stack = []) (k : Node P)
     (r : Res) (g : Bool) (s' s₁ : St P) (h : request sys n s k = some (r, g, s'))
-    (hrun : run sys n s k.1 k.2 = some (r, g, s₁)) : ∀ j ∈ s₁.inval, lookup s'.cache j = none := by
+    (hrun : run sys n s k.1 k.2 = some (r, g, s₁)) : ∀ j ∈ s₁.inval, lookup s'.cache (sys.slot j) = none := by
   obtain ⟨_, _, s₁', h1, h2⟩ := C02_stack_and_purge sys n s hs k r g s' h
   rw [hrun] at h1
   simp only [Option.some.injEq, Prod.mk.injEq, true_and] at h1
   subst h1
   intro j hj
-  rw [h2 j, if_pos hj]
+  rw [h2 (sys.slot j), if_pos (List.mem_map_of_mem hj)]
 
 /-- Ghost provenance invariant, for ALL rule systems and any spiral limit: along any sequence of
     top-level requests from the initial state, every retained entry whose ghost bit is false is
     the pure meaning of its node — what any simulation with these inputs computes for it when no
     spiral interferes. -/
-theorem C02_untainted_is_meaning (sys : Sys P) (n : Nat) (ks : List (Node P)) (rs : List Res) (s' : St P)
-    (h : requests sys n St.init ks = some (rs, s')) :
-    ∀ j x, lookup s'.cache j = some (x, false) → ∃ m, den sys m j.1 j.2 = some (.ok x) := by
-  have h0 : GClean sys (St.init : St P).cache := by intro j x hj; simp [St.init, lookup] at hj
-  exact gclean_requests sys n ks St.init rs s' h0 h
+theorem C02_untainted_is_meaning (sys : Sys P) (hk : SlotCoherent sys) (n : Nat) (ks : List (Node P))
+    (rs : List Res) (s' : St P) (h : requests sys n St.init ks = some (rs, s')) :
+    ∀ v p x, lookup s'.cache (sys.slot (v, p)) = some (x, false) → ∃ m, den sys m v p = some (.ok x) := by
+  have h0 : GClean sys (St.init : St P).cache := by intro v p x hj; simp [St.init, lookup] at hj
+  exact gclean_requests sys hk n ks St.init rs s' h0 h
 
 /-- … and every untainted RESULT is the meaning too. -/
-theorem C02_untainted_result_is_meaning (sys : Sys P) (n : Nat) (s : St P) (hc : GClean sys s.cache)
+theorem C02_untainted_result_is_meaning (sys : Sys P) (hk : SlotCoherent sys) (n : Nat) (s : St P) (hc : GClean sys s.cache)
     (k : Node P) (x : Val) (s' : St P) (h : request sys n s k = some (.ok x, false, s')) :
     ∃ m, den sys m k.1 k.2 = some (.ok x) := by
   unfold request at h
@@ -99,23 +99,23 @@ theorem C02_untainted_result_is_meaning (sys : Sys P) (n : Nat) (s : St P) (hc :
     rw [hrun] at h
     simp only [Option.some.injEq, Prod.mk.injEq] at h
     obtain ⟨rfl, rfl, _⟩ := h
-    exact (run_clean sys n s k.1 k.2 _ _ s1 hc hrun).2 rfl x rfl
+    exact (run_clean sys hk n s k.1 k.2 _ _ s1 hc hrun).2 rfl x rfl
 
 /-- For systems without self-dependent variables nothing is ever tainted and every retained value
     is exactly what a fresh simulation with the same inputs returns for it (partial: the clause
     "given the other retained values" and systems with spirals are carried by the correspondence
     and the oracle; the full statement fails on F-C02b). -/
-theorem C02_fresh_agrees_partial (sys : Sys P) (rk : Nat → Nat) (hr : VarRanked sys rk) (hmsl : 1 ≤ sys.msl)
+theorem C02_fresh_agrees_partial (sys : Sys P) (hk : SlotCoherent sys) (rk : Nat → Nat) (hr : VarRanked sys rk) (hmsl : 1 ≤ sys.msl)
     (n : Nat) (krs : List (Node P × Res)) (h : ∀ kr ∈ krs, den sys n kr.1.1 kr.1.2 = some kr.2) :
     ∃ s, requests sys n St.init (krs.map (·.1)) = some (krs.map (·.2), s) ∧
-      ∀ j x g, lookup s.cache j = some (x, g) → g = false ∧
-        ∃ m s₀', request sys m St.init j = some (.ok x, false, s₀') := by
+      ∀ v p x g, lookup s.cache (sys.slot (v, p)) = some (x, g) → g = false ∧
+        ∃ m s₀', request sys m St.init (v, p) = some (.ok x, false, s₀') := by
   obtain ⟨hc0, hs0, hi0⟩ := C01_init_consistent sys
-  obtain ⟨s, e, c, _, _⟩ := C01_requests_eq_den sys rk hr hmsl n krs h St.init hc0 hs0 hi0
+  obtain ⟨s, e, c, _, _⟩ := C01_requests_eq_den sys hk rk hr hmsl n krs h St.init hc0 hs0 hi0
   refine ⟨s, e, ?_⟩
-  intro j x g hj
-  obtain ⟨hg, m, hm⟩ := c j x g hj
-  obtain ⟨s₀', f0, _⟩ := C01_calculate_eq_den sys rk hr hmsl m St.init hc0 hs0 hi0 j.1 j.2 _ hm
+  intro v p x g hj
+  obtain ⟨hg, m, hm⟩ := c v p x g hj
+  obtain ⟨s₀', f0, _⟩ := C01_calculate_eq_den sys hk rk hr hmsl m St.init hc0 hs0 hi0 v p _ hm
   exact ⟨hg, m, s₀', f0⟩
 
 /-! ## the open finding, in the model -/
@@ -133,6 +133,7 @@ def spiralSys : Sys Nat where
   armed _ := false
   msl := 1
   noStore _ := false
+  ckey _ p := p
 
 /-- Requesting `v1@4` substitutes the default for `v0@3`, purges `v0@4`, but KEEPS the tainted
     `v1@4 = 25` (its frame lies above the earlier occurrence of the spiralling variable), although
@@ -142,7 +143,7 @@ theorem C02_retained_tainted_counterexample :
       lookup s'.cache (1, 4) = some ([25], true) ∧ lookup s'.cache (0, 4) = none ∧
       den spiralSys 10 1 4 = some (.ok [889]) := by
   refine ⟨⟨[((1, 4), ([25], true))], [], []⟩, ?_, ?_, ?_, ?_⟩
-  · simp [request, run, runE, spiralSys, lookup, store, markSpiral, purge, St.init]
+  · simp [request, run, runE, spiralSys, lookup, store, markSpiral, purge, St.init, Sys.slot]
   all_goals simp [den, denE, spiralSys, lookup]
 
 end OFCore
